@@ -17,15 +17,33 @@
       `computeNextState` bookkeeping: Lemmas/V1Follow.lean); `next_step_is_flow_statement_partial` is the
       slide-level core of it and also holds inside programs with subflow calls;
     * `history_function` — the model's decision is a function of (history, flow configs) only.
-  What is NOT carried by a theorem (correspondence + oracle only): several flow configs at once (competing
-  flows, interruption / abort / resume between flows), subflow calls (`do`) inside `computeNextState`, extension
-  flows, priorities, `hide_prev_turn`, and everything the widened model executes for llm_flows.co.
+  Phase 4 (further down in this file):
+    * `slide_with_subflows_simulates`, `do_returns_after_call`, `resume_unwinds_stack` — subflow calls follow the structured
+      call / return discipline (`V1Struct.runS`, `V1Ref.unwindS`) at any nesting depth, for any order of the flow-state list;
+    * `next_step_is_flow_statement_with_do` — the lift of `next_step_is_flow_statement` to a dialog flow with `do` calls of
+      subflows that may block and call further subflows, for every history that follows the flow through its callees
+      (`next_step_is_flow_statement_do_partial`: the uid-free special case of callees that do not block);
+    * `decision_rule_max_priority`, `best_is_first_max`, `waiting_flow_yields`, `aborted_never_decides`,
+      `interrupted_flow_keeps_position`, `interruption_resumes_own_statement` — several flows, function level, arbitrary lists;
+    * `run_follows_program`, `gen_fuel_suffices` — the action loop `generate_events` (`V1Run`);
+    * `mutation_benign` — `slide`'s writes into the shared element dicts are invisible to every later decision (`V1Mut`).
+  What is NOT carried by a theorem (function-level theorems + correspondence + oracle only): histories with several dialog
+  flows (interruption by another dialog flow, abort, extension flows, priorities), `hide_prev_turn`, `bot stop`, and
+  everything the widened model executes for llm_flows.co.
 -/
 import NemoVerif.Lemmas.V1Struct
 import NemoVerif.Lemmas.V1Follow
+import NemoVerif.Lemmas.V1Sub
+import NemoVerif.Lemmas.V1Multi
+import NemoVerif.Lemmas.V1FollowDo
+import NemoVerif.Lemmas.V1Stack
+import NemoVerif.Lemmas.V1StackFollow
+import NemoVerif.Lemmas.V1Hide
+import NemoVerif.Lemmas.V1Run
+import NemoVerif.Lemmas.V1Mut
 import NemoVerif.Generated.LlmFlowsV1
 namespace NemoVerif.C14
-open NemoVerif.V1Interp NemoVerif.V1Struct NemoVerif.V1Follow
+open NemoVerif.V1Interp NemoVerif.V1Struct NemoVerif.V1Follow NemoVerif.V1Sub NemoVerif.V1Multi NemoVerif.V1Run NemoVerif.V1RunL NemoVerif.V1Mut NemoVerif.V1FollowDo NemoVerif.V1Stack NemoVerif.V1StackFollow
 
 /-- The compiler as the code has it (compile sub-blocks, then annotate every element of a loop body
     with `_next_on_break`/`_next_on_continue` unless an inner loop already did) computes the same
@@ -348,5 +366,583 @@ theorem closed_no_escape : ∀ (f : Nat) (p : Prog) (st : SSt), closed false p =
         · simp only [htr]; exact mapNe _ _ (ih r st hc.2)
     | brk r => simp [closed] at hc
     | cont r => simp [closed] at hc
+
+
+/-! ## Phase 4 (1): subflow calls follow the structured call / return discipline -/
+
+/-- **slide_with_subflows_simulates.**  `V1Struct.runS` is the structured meaning of a flow with `do` statements: run
+    the flow's own statements to the next step statement; at `do n` run the body of `n` as a callee — if the callee
+    runs to its end, control returns to the statement after the `do` (the same flow continues, `execFrom … a'`), if it
+    stops at a step statement the caller waits at the `do` and the callee's frame is pushed (recursively, so a
+    callee may itself wait for its own callee).  For EVERY library of subflow bodies known to the interpreter
+    (`LibOK`), every program `p` (arbitrary nesting of if/else, while, break/continue, `do`), every (re)start
+    position (`none` = first statement, `some a` = after the step at `a`), every interpreter state and every call
+    depth `g`: the mirror of `_slide_with_subflows` / `_call_subflow` returns exactly what the structured run says
+    (`Agrees`): the context and context updates, the uid counter, the pushed flow states *innermost first* (each
+    callee frame ACTIVE at the compiled position of its statement, or — waiting at a nested `do` — INTERRUPTED with
+    its head already past the call and `interrupted_by` = its callee's uid), the caller's own flow state (at its
+    step, or past the `do`, INTERRUPTED by the callee), that a flow which ran to its end reports a negative head,
+    and that the recorded next step is the one of the INNERMOST waiting flow (`nextOf`) — or the model's fixed fuel
+    ran out (`.error .oof`; the real code would not return). -/
+theorem slide_with_subflows_simulates (cfgs : Cfgs) (lib : Lib) (hlib : LibOK cfgs lib) (f g : Nat)
+    (ns : State) (fs : FS) (cfg : FlowCfg) (p : Prog) (start : Option Addr)
+    (hfind : cfgs.find fs.flowId = some cfg) (hel : cfg.elems = compile p) (hp : size p ≠ 0)
+    (hh : fs.head = startPos p start) :
+    slideWithSubflows true g cfgs ns fs = .error .oof ∨
+    Agrees cfgs ns fs p (slideWithSubflows true g cfgs ns fs)
+      (runS lib f g fs.uid fs.flowId ⟨ns.ctx, ns.upd⟩ ns.ctr p start) :=
+  slideWS_sim cfgs lib hlib f g ns fs cfg p start hfind hel hp hh
+
+/-- the library / flow configs of the non-vacuity examples: `main = user hi / do s / bot bye`, `s = user u1` -/
+def exMain : Prog := .step (.user "hi") (.step (.doFlow "s") (.step (.bot "bye") .nil))
+def exSub : Prog := .step (.user "u1") .nil
+def exLib : Lib := [("s", exSub)]
+def exCfgs : Cfgs := [mkCfg "main" exMain, { id := "s", elems := compile exSub, isSubflow := true }]
+
+/-- non-vacuity of `LibOK` -/
+theorem exLibOK : LibOK exCfgs exLib := by
+  intro n q h
+  by_cases hn : n = "s"
+  · subst hn
+    simp [exLib, List.lookup] at h
+    subst h
+    exact ⟨by decide, { id := "s", elems := compile exSub, isSubflow := true }, by simp [exCfgs, Cfgs.find, mkCfg], rfl⟩
+  · have : (n == "s") = false := by simpa using hn
+    simp [exLib, List.lookup, this] at h
+
+/-- non-vacuity (finite facts): after `user hi` the call of `s` blocks — the caller waits at the `do` (address
+    `next here`), the callee frame (uid 7 = the counter) is pushed and it is the callee's statement that decides;
+    when `s` has finished, the run resumed after the `do` reaches the caller's own next statement `bot bye`. -/
+example :
+    runS exLib 20 5 3 "main" ⟨[], []⟩ 7 exMain (some .here)
+      = .wait ⟨[], []⟩ 8 (.next .here) (some 7) [{ uid := 7, name := "s", body := exSub, addr := .here, callee := none }] (7, "s", .user "u1") ∧
+    runS exLib 20 5 3 "main" ⟨[], []⟩ 8 exMain (some (.next .here))
+      = .wait ⟨[], []⟩ 8 (.next (.next .here)) none [] (3, "main", .bot "bye") := by
+  decide
+
+/-- **do_returns_after_call** (the return half of the discipline, at the level of the resume fix-point of
+    `compute_next_state`).  A pushed frame that waits at a `do` (`fr.callee = some u`) and whose callee `u` is
+    COMPLETED is resumed by the pass: it is made ACTIVE again and slid from its own head, which `_call_subflow` had
+    already moved past the `do` — i.e. from the (re)start position `some fr.addr` of `slide_with_subflows_simulates`,
+    so the run continues with the statement after the `do`. -/
+theorem do_returns_after_call (cfgs : Cfgs) (k : Nat) (ns : State) (i : Nat) (fr : SFrame) (u : Nat) (tgt : FS) (ch : Bool)
+    (hi : ns.flows[i]? = some fr.toFS) (hc : fr.callee = some u)
+    (ht : ns.flows.find? (fun g => g.uid == u) = some tgt) (hcomp : tgt.status = .completed) :
+    resumePass true (k + 1) cfgs ns i ch =
+      (match slideWithSubflows true SUB_FUEL cfgs ns
+          { uid := fr.uid, flowId := fr.name, head := startPos fr.body (some fr.addr), status := .active, interruptedBy := none } with
+       | .error e => .error e
+       | .ok (ns', fs') =>
+         resumePass true k cfgs { ns' with flows := setAt ns'.flows i (if fs'.head < 0 then { fs' with status := .completed } else fs') } (i + 1) true) := by
+  have hfs : fr.toFS = { uid := fr.uid, flowId := fr.name, head := ((off fr.body fr.addr : Nat) : Int) + 1, status := .interrupted, interruptedBy := some u } := by
+    simp [SFrame.toFS, hc]
+  rw [hfs] at hi
+  simp only [resumePass, hi, ht, hcomp, startPos]
+  simp
+  rfl
+
+/-! ## Phase 4 (2): several flows — the decision rule of `compute_next_state` -/
+
+/-- **decision_rule_max_priority.**  `_record_next_step` (modifier 1.0) called for any list of candidates — the
+    elements at the heads of any flows, in the order the flows are visited — records `pick old (best cands)`:
+    `best` is the FIRST actionable candidate of MAXIMAL flow priority (`best_is_first_max`), and it replaces a
+    previously recorded step iff that step's recorded priority is strictly smaller than `priority × 1.0`. -/
+theorem decision_rule_max_priority (cands : List Cand) (old : Option NextStep) :
+    recAll old cands = pick old (best cands) := recAll_rule cands old
+
+/-- **ties are resolved by flow order**: every candidate visited before the chosen one has a strictly smaller
+    priority (or is not actionable), every one after it a smaller or equal priority. -/
+theorem best_is_first_max (cands : List Cand) (b : Cand) (h : best cands = some b) :
+    ∃ l1 l2, cands = l1 ++ b :: l2 ∧ isActionable b.el = true ∧
+      (∀ c ∈ l1, isActionable c.el = true → c.prio < b.prio) ∧
+      (∀ c ∈ l2, isActionable c.el = true → c.prio ≤ b.prio) := best_spec cands b h
+
+/-- non-vacuity: three flows at actionable steps with priorities 1.0, 2.0, 2.0 — the second one (first of the maximal ones) decides -/
+example : recAll none [⟨.runAction "utter" (some "a") "" none, 1, 100⟩, ⟨.runAction "utter" (some "b") "" none, 2, 200⟩,
+      ⟨.runAction "utter" (some "c") "" none, 3, 200⟩]
+    = some { elem := .runAction "utter" (some "b") "" none, uid := 2, prio := 20000 } := by decide
+
+/-- `_record_next_step` of the interpreter IS `recNext` (any flow state, any element list with a valid head) -/
+theorem record_is_recNext (ns : State) (fs : FS) (cfg : FlowCfg) (el : Elem) (h : pyIndex cfg.elems fs.head = some el) :
+    recordNextStep ns fs cfg false = { ns with next := recNext ns.next el fs.uid cfg.prio } := record_eq ns fs cfg el h
+
+/-- **waiting_flow_yields.**  A flow that was NOT triggered by the event records its pending step with modifier 0.9;
+    any flow that decides on the event afterwards with a priority at least as high (equal included) replaces it. -/
+theorem waiting_flow_yields (el el' : Elem) (u u' p p' : Nat) (hp : 0 < p) (hge : p ≤ p') (ha : isActionable el' = true) :
+    recNext (some { elem := el, uid := u, prio := p * 90 }) el' u' p' = some { elem := el', uid := u', prio := p' * 100 } := by
+  have : p * 90 < p' * 100 := by omega
+  simp [recNext, ha, this]
+
+/-- **aborted_never_decides.**  A flow state that is ABORTED or COMPLETED has no influence on the next state at all,
+    for ARBITRARY flow lists and flow configs: `computeNextState` gives the same result with and without it (on every
+    event that is processed by the flows, i.e. other than StartInternalSystemAction / ContextUpdate, which leave the
+    flow states untouched). -/
+theorem aborted_never_decides (r : Bool) (cfgs : Cfgs) (st : State) (l1 l2 : List FS) (fs : FS) (cfg : FlowCfg) (ev : Event)
+    (hf : cfgs.find fs.flowId = some cfg) (hd : fs.status = .aborted ∨ fs.status = .completed)
+    (h1 : ev ≠ .startAction) (h2 : ∀ d, ev ≠ .contextUpdate d) :
+    computeNextState r cfgs { st with flows := l1 ++ fs :: l2 } ev = computeNextState r cfgs { st with flows := l1 ++ l2 } ev := by
+  have key : ∀ ns ext, advanceAll r cfgs ev (l1 ++ fs :: l2) ns ext = advanceAll r cfgs ev (l1 ++ l2) ns ext := by
+    intro ns ext
+    rw [advanceAll_append, advanceAll_append]
+    cases advanceAll r cfgs ev l1 ns ext with
+    | error e => rfl
+    | ok x =>
+      obtain ⟨ns', ext'⟩ := x
+      simp only [advanceAll, advanceOne_dead r cfgs ev ns' ext' fs cfg hf hd]
+  cases ev with
+  | startAction => exact absurd rfl h1
+  | contextUpdate d => exact absurd rfl (h2 d)
+  | userIntent i => simp only [computeNextState, key]
+  | botIntent i => simp only [computeNextState, key]
+  | actionFinished n ok => simp only [computeNextState, key]
+  | hidePrevTurn => simp only [computeNextState, key]
+  | other ty ps => simp only [computeNextState, key]
+
+/-- non-vacuity: an aborted flow state among two others -/
+example : computeNextState true witnessCfgs
+      { flows := [{ uid := 0, flowId := "f0", head := 1, status := .aborted }] } (.userIntent "greet")
+    = computeNextState true witnessCfgs { flows := [] } (.userIntent "greet") :=
+  aborted_never_decides true witnessCfgs {} [] [] { uid := 0, flowId := "f0", head := 1, status := .aborted }
+    { id := "f0", elems := compile (.step (.user "greet") (.ite (.var "c") (.step (.bot "a") .nil) .nil .nil)) } _
+    (by simp [witnessCfgs, Cfgs.find]) (.inl rfl) (by simp) (by simp)
+
+/-- **interrupted_flow_keeps_position**: whatever the event, an INTERRUPTED flow state is carried over unchanged by
+    the advance loop; and an ACTIVE flow waiting at a `user` statement (not actionable) that a triggering event does
+    not match becomes INTERRUPTED with its head unchanged (arbitrary flow configs). -/
+theorem interrupted_flow_keeps_position (r : Bool) (cfgs : Cfgs) (ev : Event) (ns : State) (ext : Bool) (fs : FS) (cfg : FlowCfg)
+    (hf : cfgs.find fs.flowId = some cfg) :
+    (fs.status = .interrupted → advanceOne r cfgs ev ns ext fs = .ok ({ ns with flows := ns.flows ++ [fs] }, ext)) ∧
+    (∀ el, fs.status = .active → pyIndex cfg.elems fs.head = some el → ev.triggers cfg.triggers = true →
+      isMatch el ev = false → isActionable el = false → cfg.isInterruptible = true →
+      advanceOne r cfgs ev ns ext fs = .ok ({ ns with flows := ns.flows ++ [{ fs with status := .interrupted }] }, ext)) :=
+  ⟨advanceOne_interrupted r cfgs ev ns ext fs cfg hf,
+   fun el ha hel htr hm hna hint => advanceOne_interrupts r cfgs ev ns ext fs cfg el hf ha hel htr hm hna hint⟩
+
+/-- **interruption_resumes_own_statement.**  In the resume fix-point, an INTERRUPTED flow whose interrupter is COMPLETED
+    — any position `i` of an arbitrary flow-state list, arbitrary flow configs — and which stands at a `user`
+    statement is made ACTIVE again at ITS OWN head: nothing is slid over, nothing is decided for it, the next
+    matching user intent continues the flow where it was interrupted. -/
+theorem interruption_resumes_own_statement (cfgs : Cfgs) (k : Nat) (ns : State) (i : Nat) (fs tgt : FS) (cfg : FlowCfg)
+    (n : Nat) (intent : String) (u : Nat) (ch : Bool)
+    (hi : ns.flows[i]? = some fs) (hs : fs.status = .interrupted) (hby : fs.interruptedBy = some u)
+    (ht : ns.flows.find? (fun g => g.uid == u) = some tgt) (hc : tgt.status = .completed)
+    (hf : cfgs.find fs.flowId = some cfg) (hh : fs.head = (n : Int)) (hel : cfg.elems[n]? = some (.userIntent intent)) :
+    resumePass true (k + 1) cfgs ns i ch =
+      resumePass true k cfgs { ns with flows := setAt ns.flows i { fs with status := .active, interruptedBy := none } } (i + 1) true := by
+  obtain ⟨uid, fid, head, status, iby⟩ := fs
+  simp only at hs hby hh hf
+  subst hs hby hh
+  have hsl := slideWS_at_user 63 cfgs ns { uid := uid, flowId := fid, head := (n : Int), status := .active, interruptedBy := none } cfg n intent hf rfl hel
+  have hnn : ¬ ((n : Int) < 0) := by omega
+  simp only [resumePass, hi, ht, hc]
+  simp only [SUB_FUEL]
+  simp [hsl, hnn]
+
+/-- **an aborted interrupter aborts the flows waiting for it** (same pass, arbitrary lists) -/
+theorem interrupter_aborted_aborts (cfgs : Cfgs) (k : Nat) (ns : State) (i : Nat) (fs tgt : FS) (u : Nat) (ch : Bool)
+    (hi : ns.flows[i]? = some fs) (hs : fs.status = .interrupted) (hby : fs.interruptedBy = some u)
+    (ht : ns.flows.find? (fun g => g.uid == u) = some tgt) (hc : tgt.status = .aborted) :
+    resumePass true (k + 1) cfgs ns i ch =
+      resumePass true k cfgs { ns with flows := setAt ns.flows i { fs with status := .aborted, interruptedBy := none } } (i + 1) true := by
+  simp [resumePass, hi, hs, hby, ht, hc]
+
+
+/-! ## Phase 4 (3): the action loop `generate_events` -/
+
+/-- one iteration: on a history that follows the flow, what the loop appends is what the structured state says -/
+theorem next_events_follow (cfgs : Cfgs) (id : String) (p : Prog) (fS : Nat) (oracle : Oracle)
+    (hnc : noCompetingFlows cfgs id p = true) (events : List REvent) (S : SS)
+    (hf : followAll p (startIntent p) fS { ctx := [], pos := .idle, dec := [] } (events.map REvent.toEvent) = some S) :
+    nextEvents cfgs oracle [] events = none ∨ nextEvents cfgs oracle [] events = refNext oracle S events := by
+  have key := next_step_is_flow_statement cfgs id p fS (events.map REvent.toEvent) S hnc hf
+  simp only [nextEvents, refNext]
+  cases events.getLast? with
+  | none => left; rfl
+  | some e =>
+    cases e with
+    | start n ps rk => right; rfl
+    | ev e =>
+      cases e with
+      | hidePrevTurn => right; rfl
+      | userIntent i => rcases key with h | h <;> simp [h]
+      | botIntent i => rcases key with h | h <;> simp [h]
+      | actionFinished n ok => rcases key with h | h <;> simp [h]
+      | contextUpdate d => rcases key with h | h <;> simp [h]
+      | startAction => rcases key with h | h <;> simp [h]
+      | other ty ps => rcases key with h | h <;> simp [h]
+
+/-- **run_follows_program.**  `V1Run.genLoop` mirrors the `while True` loop of `RuntimeV1_0.generate_events`
+    (`compute_next_steps` → the decided events are appended → a `StartInternalSystemAction` is dispatched to the action
+    oracle and its ContextUpdate / InternalSystemActionFinished / returned events are appended → loop; `Listen` ends
+    the turn; the > 100 events valve and an exception of `compute_next_steps` end it with the internal-error events).
+    `V1RunL.refLoop` is the same loop at SOURCE level: the decision of every iteration is read off the structured
+    state of the flow (`V1Follow.followAll`): the context updates of the statements run since the last event plus the
+    event of the statement the structured semantics (`execFrom`) reaches next.
+    For a single non-competing dialog flow (`noCompetingFlows`), EVERY action oracle, every history that follows the
+    flow so far and every number of loop iterations: whenever the reference turn is defined (the appended events keep
+    following the flow — successful actions, no `bot stop`), the loop produces exactly the reference's events, i.e. the
+    sequence of decided steps is the structured program's statement sequence — or the model's fuel ran out (`none`). -/
+theorem run_follows_program (cfgs : Cfgs) (id : String) (p : Prog) (fS : Nat) (oracle : Oracle)
+    (hnc : noCompetingFlows cfgs id p = true) :
+    ∀ (n : Nat) (events new out : List REvent) (S : SS),
+      followAll p (startIntent p) fS { ctx := [], pos := .idle, dec := [] } (events.map REvent.toEvent) = some S →
+      refLoop p (startIntent p) fS oracle n S events new = some out →
+      genLoop cfgs oracle [] n events new = none ∨ genLoop cfgs oracle [] n events new = some out := by
+  intro n
+  induction n with
+  | zero => intro events new out S _ h; simp [refLoop] at h
+  | succ n ih =>
+    intro events new out S hf hout
+    simp only [refLoop] at hout
+    simp only [genLoop]
+    rcases next_events_follow cfgs id p fS oracle hnc events S hf with h | h
+    · left; simp [h]
+    · rw [h]
+      cases hr : refNext oracle S events with
+      | none => simp [hr] at hout
+      | some nx =>
+        simp only [hr] at hout ⊢
+        generalize (if nx.isEmpty = true then [listen] else nx) = nx' at hout ⊢
+        by_cases h1 : ((nx'.getLast?.map REvent.isListen).getD false) = true
+        · simp only [h1, if_true] at hout ⊢
+          right; exact hout
+        · simp only [h1, Bool.false_eq_true, if_false] at hout ⊢
+          by_cases h2 : (new ++ nx').length > 100
+          · simp only [h2, if_true] at hout ⊢
+            right; exact hout
+          · simp only [h2, if_false] at hout ⊢
+            cases hfa : followAll p (startIntent p) fS S (nx'.map REvent.toEvent) with
+            | none => rw [hfa] at hout; cases hout
+            | some S' =>
+              rw [hfa] at hout
+              refine ih _ _ out S' ?_ hout
+              rw [List.map_append, followAll_append p _ fS _ _ _ S hf]
+              exact hfa
+
+/-- non-vacuity (finite fact): `user hi / $r = execute a1 / if $r: bot yes / else: bot no / bot bye`, the oracle answers
+    True: the reference turn decides `execute a1`, then (after the action's ContextUpdate and its Finished event) `bot yes`,
+    then `bot bye`, then nothing (`Listen`). -/
+example :
+    let p : Prog := .step (.user "hi") (.step (.exec "a1" "{}" (some "r"))
+      (.ite (.var "r") (.step (.bot "yes") .nil) (.step (.bot "no") .nil) (.step (.bot "bye") .nil)))
+    let oracle : Oracle := fun _ _ _ => { ret := .bool true }
+    let ev0 : List REvent := [.ev (.other "UtteranceUserActionFinished" []), .ev (.userIntent "hi")]
+    noCompetingFlows [mkCfg "f" p] "f" p = true ∧
+    (followAll p "hi" 50 { ctx := [], pos := .idle, dec := [] } (ev0.map REvent.toEvent)).bind
+      (fun S => refLoop p "hi" 50 oracle 20 S ev0 [])
+      = some [.start "a1" "{}" (some "r"), .ev (.contextUpdate [("r", .bool true)]), .ev (.actionFinished "a1" true),
+              .ev (.botIntent "yes"), .ev (.botIntent "bye"), listen] := by
+  decide
+
+/-- the loop never runs out of ITS fuel: `GEN_FUEL` iterations suffice whatever the flows and the oracle do (each
+    iteration appends at least one event; more than 100 new events close the valve) — `generateEvents` is `none` only if
+    `computeNextSteps` ran out of the model's slide fuel in some iteration (or `events` is empty). -/
+theorem gen_fuel_suffices (cfgs : Cfgs) (oracle : Oracle) (config : Ctx) :
+    ∀ (f : Nat) (events new : List REvent), new.length ≤ 100 → 101 ≤ f + new.length →
+      genLoop cfgs oracle config f events new = none →
+      ∃ ev' : List REvent, nextEvents cfgs oracle config ev' = none := by
+  intro f
+  induction f with
+  | zero => intro events new h100 hlen _; omega
+  | succ f ih =>
+    intro events new h100 hlen h
+    simp only [genLoop] at h
+    cases hn : nextEvents cfgs oracle config events with
+    | none => exact ⟨events, hn⟩
+    | some nx =>
+      simp only [hn] at h
+      have hpos : 0 < (if nx.isEmpty then [listen] else nx).length := by
+        by_cases he : nx.isEmpty = true
+        · simp [he]
+        · simp only [he, Bool.false_eq_true, if_false]
+          cases nx with
+          | nil => simp at he
+          | cons a r => simp
+      generalize (if nx.isEmpty = true then [listen] else nx) = nx' at h hpos
+      by_cases h1 : ((nx'.getLast?.map REvent.isListen).getD false) = true
+      · simp only [h1, if_true] at h; cases h
+      · simp only [h1, Bool.false_eq_true, if_false] at h
+        by_cases h2 : (new ++ nx').length > 100
+        · simp only [h2, if_true] at h; cases h
+        · simp only [h2, if_false] at h
+          refine ih _ _ (by omega) ?_ h
+          simp only [List.length_append] at h2 ⊢
+          omega
+
+theorem generateEvents_none (cfgs : Cfgs) (oracle : Oracle) (config : Ctx) (events : List REvent)
+    (h : generateEvents cfgs oracle config events = none) : ∃ ev' : List REvent, nextEvents cfgs oracle config ev' = none :=
+  gen_fuel_suffices cfgs oracle config GEN_FUEL events [] (by simp) (by simp [GEN_FUEL]) h
+
+
+/-! ## Phase 4 (4): the decision is a function of the history alone — including the mutated config objects -/
+
+/-- **mutation_benign.**  `V1Mut.slideM` is `slide` WITH its side effect on the shared element dicts (it writes
+    `_active_label` into every element it passes while a `_label` seen earlier in the same slide is active) and
+    returns the mutated element list.  For every element list with arbitrary `_label`s and arbitrary left-over
+    `_active_label`s, every head, context and fuel:
+    (a) the mutating slide returns exactly what the pure `slide` of the interpreter model returns on the elements
+        proper — the left-over `_active_label`s of earlier calls are never read;
+    (b) the mutation changes neither an element proper nor a `_label`: the flow configs every other function of the
+        interpreter sees (`MCfg.view`) are the same before and after, hence `computeNextSteps` on ANY later history,
+        with the mutated config anywhere among ANY other flow configs, decides what it decides on the untouched ones;
+    (c) a later slide on the mutated element list returns what it returns on the original one. -/
+theorem mutation_benign (f : Nat) (m : MCfg) (st : SSt) (h prev : Int) (act : Option String) :
+    (slideM f m.elems st h prev act).1 = slide f (proj m.elems) st h prev ∧
+    (∀ (r : Bool) (before after : List MCfg) (H : List Event) (config : Ctx),
+      computeNextSteps r ((before ++ { m with elems := (slideM f m.elems st h prev act).2 } :: after).map MCfg.view) H config
+        = computeNextSteps r ((before ++ m :: after).map MCfg.view) H config) ∧
+    (∀ (f' : Nat) (st' : SSt) (h' prev' : Int) (act' : Option String),
+      (slideM f' (slideM f m.elems st h prev act).2 st' h' prev' act').1 = (slideM f' m.elems st' h' prev' act').1) := by
+  obtain ⟨h1, h2, _⟩ := slideM_spec f m.elems st h prev act
+  refine ⟨h1, ?_, ?_⟩
+  · intro r before after H config
+    have : MCfg.view { m with elems := (slideM f m.elems st h prev act).2 } = MCfg.view m := by
+      simp only [MCfg.view, h2]
+    simp only [List.map_append, List.map_cons, this]
+  · intro f' st' h' prev' act'
+    rw [(slideM_spec f' _ st' h' prev' act').1, (slideM_spec f' m.elems st' h' prev' act').1, h2]
+
+/-- non-vacuity (finite fact): a labelled `set` followed by a `bot` step — the slide marks both elements and the
+    elements proper stay what they were -/
+example :
+    let code : List MElem := [{ el := .setE "x" (.lit (.int 1)) 1, label := some "L" }, { el := .runAction "utter" (some "a") "" none }]
+    ((slideM 10 code ⟨[], []⟩ 0 0 none).2.map (·.activeLabel)) = [some "L", some "L"] ∧
+    proj (slideM 10 code ⟨[], []⟩ 0 0 none).2 = proj code := by
+  decide
+
+
+/-! ## Phase 4 (1b): `next_step_is_flow_statement` for flows WITH subflow calls -/
+
+/-- **next_step_is_flow_statement_do_partial** (the special case of callees that do not block, with a uid-free
+    reference; the full statement — callees that wait for the user / a bot message / an action — is
+    `next_step_is_flow_statement_with_do` below).
+    For whole histories of any length: `next_step_is_flow_statement` for flows whose callees do NOT block — subflows
+    made of assignments, conditionals, loops and further such calls ("subroutines"), at any nesting depth, with the
+    subflow configs present among the flow configs (`Setup`: the dialog flow first, then subflow configs only, every
+    library body known and non-empty).  `followAllD` is the source-level reference: as `followAll`, with `runD` (run the
+    callee's body in place, continue after the `do`) in place of `execFrom`; it is undefined where a callee would block.
+    Conclusion as in `next_step_is_flow_statement`: the decision is the reference's, or the model's fuel ran out. -/
+theorem next_step_is_flow_statement_do_partial (cfgs : Cfgs) (id : String) (p : Prog) (lib : Lib) (f : Nat) (H : List Event) (S : SS)
+    (hS : Setup cfgs id p lib) (hshape : (match p with | .step (.user _) _ => true | _ => false) = true)
+    (hfollow : followAllD lib p (startIntent p) f { ctx := [], pos := .idle, dec := [] } H = some S) :
+    computeNextSteps true cfgs H = .oof ∨ computeNextSteps true cfgs H = .ok S.dec := by
+  cases p with
+  | step s r =>
+    cases s with
+    | user i0 => exact follow_decidesD hS f H S hfollow
+    | bot i => simp at hshape
+    | exec n ps rk => simp at hshape
+    | doFlow n => simp at hshape
+  | nil => simp at hshape
+  | set k e r => simp at hshape
+  | ite c t e r => simp at hshape
+  | «while» c b r => simp at hshape
+  | brk r => simp at hshape
+  | cont r => simp at hshape
+
+/-- non-vacuity: `main = user hi / do setup / if $n == 1: bot one else: bot other`, `setup = $n = 0 / do inc`, `inc = $n = $n + 1` -/
+def exDoMain : Prog := .step (.user "hi") (.step (.doFlow "setup") (.ite (.bin .eq (.var "n") (.lit (.int 1))) (.step (.bot "one") .nil) (.step (.bot "other") .nil) .nil))
+def exDoSetup : Prog := .set "n" (.lit (.int 0)) (.step (.doFlow "inc") .nil)
+def exDoInc : Prog := .set "n" (.bin .add (.var "n") (.lit (.int 1))) .nil
+def exDoLib : Lib := [("setup", exDoSetup), ("inc", exDoInc)]
+def exDoCfgs : Cfgs := [mkCfg "main" exDoMain, { id := "setup", elems := compile exDoSetup, isSubflow := true },
+  { id := "inc", elems := compile exDoInc, isSubflow := true }]
+
+example : Setup exDoCfgs "main" exDoMain exDoLib := by
+  refine ⟨⟨_, rfl, by simp⟩, ?_⟩
+  intro n q h
+  by_cases h1 : n = "setup"
+  · subst h1
+    simp [exDoLib, List.lookup] at h
+    subst h
+    exact ⟨by decide, { id := "setup", elems := compile exDoSetup, isSubflow := true }, by simp [exDoCfgs, Cfgs.find, mkCfg], rfl⟩
+  · by_cases h2 : n = "inc"
+    · subst h2
+      simp [exDoLib, List.lookup] at h
+      subst h
+      exact ⟨by decide, { id := "inc", elems := compile exDoInc, isSubflow := true }, by simp [exDoCfgs, Cfgs.find, mkCfg], rfl⟩
+    · have e1 : (n == "setup") = false := by simpa using h1
+      have e2 : (n == "inc") = false := by simpa using h2
+      simp [exDoLib, List.lookup, e1, e2] at h
+
+example : (followAllD exDoLib exDoMain "hi" 50 { ctx := [], pos := .idle, dec := [] }
+      [.other "UtteranceUserActionFinished" [], .userIntent "hi"]).map (·.dec)
+    = some [.ctx [("n", .int 1)], .bot "one"] := by
+  decide
+
+
+/-! ## Phase 4 (1c): the resume fix-point unwinds the call stack -/
+
+/-- **resume_unwinds_stack.**  The state of the interpreter along a stack of waiting callers (`Shape`): the flow states
+    are — in ANY order, among any COMPLETED left-overs — the images of the frames `stk` (innermost first; each frame
+    waits at a `do`, INTERRUPTED by the uid of the frame below it), with pairwise distinct uids below the counter.
+    Situation: the callee `X` the top frame waits for (`ChainFrom (some uX) stk`) is COMPLETED.  Then the resume
+    fix-point of `compute_next_state` (`resumePass` from any position `i` of the running pass, followed by the
+    `while changes` iterations; `resumeLoop true (K+1) … = resumeFrom … K 1000 ns 0 false`) does exactly what the
+    structured unwinding `unwindS` says, whatever the depth of the stack and the order of the list: the top caller
+    continues AFTER its `do`; if it runs to its end, ITS caller continues after its own `do`, and so on; the first frame
+    that reaches a step statement (possibly after calling further subflows, whose frames are pushed) stops the
+    unwinding.  The result again has the shape of a stack (`Shape … stk'`, `ChainFrom none stk'`), the context, the
+    context updates and the uid counter are the structured run's, and the recorded next step is the one of the
+    innermost waiting flow (`InnerOK`) — or the model's fixed pass / loop / slide fuel ran out. -/
+theorem resume_unwinds_stack (cfgs : Cfgs) (lib : Lib) (hlib : LibOK cfgs lib) (f : Nat)
+    (stk : List SFrame) (K F : Nat) (ns : State) (i : Nat) (ch : Bool) (uX jx : Nat) (X : FS)
+    (hS : Shape cfgs ns stk) (hc : ChainFrom (some uX) stk)
+    (hX : ns.flows[jx]? = some X) (hXu : X.uid = uX) (hXc : X.status = .completed)
+    (hpos : ch = true ∨ ∀ top, stk.head? = some top → ∀ idx : Nat, ns.flows[idx]? = some top.toFS → i ≤ idx) :
+    resumeFrom cfgs K F ns i ch = .error .oof ∨
+    Unwound cfgs ns.next (resumeFrom cfgs K F ns i ch) (unwindS lib f ⟨ns.ctx, ns.upd⟩ ns.ctr stk) :=
+  resume_chain cfgs lib hlib f stk K F ns i ch uX jx X hS hc hX hXu hXc hpos
+
+/-- the fix-point as the code has it is `resumeFrom` from the start of a fresh pass -/
+theorem resume_loop_is_resumeFrom (cfgs : Cfgs) (K : Nat) (ns : State) :
+    resumeLoop true (K + 1) cfgs ns = resumeFrom cfgs K 1000 ns 0 false := resumeLoop_eq cfgs K ns
+
+
+/-! ## Phase 4 (1d): `next_step_is_flow_statement` for flows with subflow calls that BLOCK — whole histories -/
+
+/-- **next_step_is_flow_statement_with_do.**  The lift of `next_step_is_flow_statement` to dialog flows whose statements
+    include `do` calls of subflows which may themselves wait for the user, a bot message or an action, and call further
+    subflows — any nesting depth, every history of any length that follows the flow THROUGH its callees.
+    `followAllK` is the source-level reference: its state is the context, the STACK of waiting frames (innermost first;
+    a frame = flow name, body, the address of the statement it waits at; frames are named by the interpreter's uid
+    counter, which the reference threads along) and what is decided.  On the event that matches the innermost
+    frame's statement the stack is unwound by `unwindS`: the innermost flow continues after its statement
+    (`runS`: its own statements, calls pushing new frames); if it runs to its end, its caller continues after the
+    `do`, and so on (`exec`/`execFrom` at every level); the start intent of the idle flow pushes the dialog flow's
+    frame; ContextUpdate, StartInternalSystemAction and non-triggering events are as in `followAll`.  What is decided
+    is the context updates since the event plus the event of the statement of the INNERMOST waiting flow.
+    `SetupK`: the flow configs are the dialog flow (compiled from `p`, all defaults) followed by subflow configs
+    (default trigger types, not extensions); every library body is among them, compiled and non-empty.
+    Conclusion: `computeNextSteps` (with both repairs) returns exactly the reference's decision — or the model's fixed
+    fuel ran out.  Invariant behind it (`V1StackFollow.InvK`): the interpreter's flow states are — in any order, among
+    COMPLETED left-overs — the images of the stack's frames (`V1Stack.Shape`: the innermost ACTIVE at its statement,
+    every caller INTERRUPTED with its head past its `do` and `interrupted_by` = its callee's uid, uids pairwise
+    distinct and below the counter); `resume_unwinds_stack` carries the resume fix-point. -/
+theorem next_step_is_flow_statement_with_do (cfgs : Cfgs) (id : String) (p : Prog) (lib : Lib) (f : Nat) (H : List Event) (S : SK)
+    (hS : SetupK cfgs id p lib) (hshape : (match p with | .step (.user _) _ => true | _ => false) = true)
+    (hfollow : followAllK lib id p (startIntent p) f { ctx := [], ctr := 0, stk := [], dec := [] } H = some S) :
+    computeNextSteps true cfgs H = .oof ∨ computeNextSteps true cfgs H = .ok S.dec := by
+  cases p with
+  | step s r =>
+    cases s with
+    | user i0 => exact follow_decidesK hS f H S hfollow
+    | bot i => simp at hshape
+    | exec n ps rk => simp at hshape
+    | doFlow n => simp at hshape
+  | nil => simp at hshape
+  | set k e r => simp at hshape
+  | ite c t e r => simp at hshape
+  | «while» c b r => simp at hshape
+  | brk r => simp at hshape
+  | cont r => simp at hshape
+
+/-- non-vacuity of `SetupK`: `main = user hi / do s / bot bye`, `s = user u1` (a callee that waits for the user) -/
+example : SetupK exCfgs "main" exMain exLib :=
+  ⟨⟨_, rfl, by simp⟩, exLibOK⟩
+
+/-- non-vacuity (finite facts): after `user hi` the callee `s` waits for `user u1` — nothing is decided, the stack is
+    [s, main]; `user u1` ends `s`, `main` continues after its `do` and decides `bot bye`. -/
+example :
+    (followAllK exLib "main" exMain "hi" 20 { ctx := [], ctr := 0, stk := [], dec := [] } [.userIntent "hi"]).map (fun S => (S.dec, S.stk.map (·.name)))
+      = some ([], ["s", "main"]) ∧
+    (followAllK exLib "main" exMain "hi" 20 { ctx := [], ctr := 0, stk := [], dec := [] } [.userIntent "hi", .userIntent "u1"]).map (fun S => (S.dec, S.stk.map (·.name)))
+      = some ([.bot "bye"], ["main"]) := by
+  decide
+
+
+/-! ## Phase 4 (3b): the action loop on a flow with subflow calls -/
+
+theorem next_events_follow_do (cfgs : Cfgs) (id : String) (p : Prog) (lib : Lib) (fS : Nat) (oracle : Oracle)
+    (hS : SetupK cfgs id p lib) (hshape : (match p with | .step (.user _) _ => true | _ => false) = true)
+    (events : List REvent) (S : SK)
+    (hf : followAllK lib id p (startIntent p) fS { ctx := [], ctr := 0, stk := [], dec := [] } (events.map REvent.toEvent) = some S) :
+    nextEvents cfgs oracle [] events = none ∨ nextEvents cfgs oracle [] events = refNextK oracle S events := by
+  have key := next_step_is_flow_statement_with_do cfgs id p lib fS (events.map REvent.toEvent) S hS hshape hf
+  simp only [nextEvents, refNextK]
+  cases events.getLast? with
+  | none => left; rfl
+  | some e =>
+    cases e with
+    | start n ps rk => right; rfl
+    | ev e =>
+      cases e with
+      | hidePrevTurn => right; rfl
+      | userIntent i => rcases key with h | h <;> simp [h]
+      | botIntent i => rcases key with h | h <;> simp [h]
+      | actionFinished n ok => rcases key with h | h <;> simp [h]
+      | contextUpdate d => rcases key with h | h <;> simp [h]
+      | startAction => rcases key with h | h <;> simp [h]
+      | other ty ps => rcases key with h | h <;> simp [h]
+
+/-- **run_follows_program_with_do.**  `run_follows_program` for a dialog flow with subflow calls (callees may block, any
+    nesting depth; setting `SetupK`): the loop of `generate_events` produces, for every action oracle, exactly the events of
+    the source-level turn `refLoopK`, whose decisions are read off the structured stack state of `followAllK` — the statements
+    of the innermost running flow, after a callee's last statement the statement after the `do` — or the model's fuel ran out. -/
+theorem run_follows_program_with_do (cfgs : Cfgs) (id : String) (p : Prog) (lib : Lib) (fS : Nat) (oracle : Oracle)
+    (hS : SetupK cfgs id p lib) (hshape : (match p with | .step (.user _) _ => true | _ => false) = true) :
+    ∀ (n : Nat) (events new out : List REvent) (S : SK),
+      followAllK lib id p (startIntent p) fS { ctx := [], ctr := 0, stk := [], dec := [] } (events.map REvent.toEvent) = some S →
+      refLoopK lib id p (startIntent p) fS oracle n S events new = some out →
+      genLoop cfgs oracle [] n events new = none ∨ genLoop cfgs oracle [] n events new = some out := by
+  intro n
+  induction n with
+  | zero => intro events new out S _ h; simp [refLoopK] at h
+  | succ n ih =>
+    intro events new out S hf hout
+    simp only [refLoopK] at hout
+    simp only [genLoop]
+    rcases next_events_follow_do cfgs id p lib fS oracle hS hshape events S hf with h | h
+    · left; simp [h]
+    · rw [h]
+      cases hr : refNextK oracle S events with
+      | none => simp [hr] at hout
+      | some nx =>
+        simp only [hr] at hout ⊢
+        generalize (if nx.isEmpty = true then [listen] else nx) = nx' at hout ⊢
+        by_cases h1 : ((nx'.getLast?.map REvent.isListen).getD false) = true
+        · simp only [h1, if_true] at hout ⊢
+          right; exact hout
+        · simp only [h1, Bool.false_eq_true, if_false] at hout ⊢
+          by_cases h2 : (new ++ nx').length > 100
+          · simp only [h2, if_true] at hout ⊢
+            right; exact hout
+          · simp only [h2, if_false] at hout ⊢
+            cases hfa : followAllK lib id p (startIntent p) fS S (nx'.map REvent.toEvent) with
+            | none => rw [hfa] at hout; cases hout
+            | some S' =>
+              rw [hfa] at hout
+              refine ih _ _ out S' ?_ hout
+              rw [List.map_append, followAllK_append lib id p _ fS _ _ _ S hf]
+              exact hfa
+
+/-- non-vacuity (finite fact): `main = user hi / do s / bot bye`, `s = user u1`: the turn after `user hi` decides nothing
+    (the callee waits: `Listen`); the turn after `user u1` decides `bot bye` and then nothing. -/
+example :
+    let oracle : Oracle := fun _ _ _ => {}
+    let ev1 : List REvent := [.ev (.userIntent "hi")]
+    let ev2 : List REvent := [.ev (.userIntent "hi"), listen, .ev (.userIntent "u1")]
+    (followAllK exLib "main" exMain "hi" 20 { ctx := [], ctr := 0, stk := [], dec := [] } (ev1.map REvent.toEvent)).bind
+      (fun S => refLoopK exLib "main" exMain "hi" 20 oracle 10 S ev1 []) = some [listen] ∧
+    (followAllK exLib "main" exMain "hi" 20 { ctx := [], ctr := 0, stk := [], dec := [] } (ev2.map REvent.toEvent)).bind
+      (fun S => refLoopK exLib "main" exMain "hi" 20 oracle 10 S ev2 []) = some [.ev (.botIntent "bye"), listen] := by
+  decide
+
+
+/-! ## Phase 4 (5): `hide_prev_turn` -/
+
+/-- **hide_prev_turn_is_cut.**  A `hide_prev_turn` event at the end of a history (what the runtime appends after a failed
+    action / an internal error): for ANY flow configs, the decision is the decision for the history cut before the last
+    user utterance (`cutAtLastUtterance`: everything from the last `UtteranceUserActionFinished` on is dropped) — so the
+    histories of `next_step_is_flow_statement(_with_do)` extend to histories with hidden turns by cutting them. -/
+theorem hide_prev_turn_is_cut (r : Bool) (cfgs : Cfgs) (config : Ctx) (H H' : List Event)
+    (hH : ∀ ev ∈ H, ev ≠ .hidePrevTurn) (hcut : cutAtLastUtterance H = some H') :
+    computeNextSteps r cfgs (H ++ [.hidePrevTurn]) config = computeNextSteps r cfgs H' config :=
+  NemoVerif.V1Hide.hide_is_cut r cfgs config H H' hH hcut
+
+/-- non-vacuity: two turns, the second one hidden -/
+example : cutAtLastUtterance [.other "UtteranceUserActionFinished" [], .userIntent "hi", .botIntent "b",
+      .other "UtteranceUserActionFinished" [], .userIntent "x", .botIntent "inform internal error occurred"]
+    = some [.other "UtteranceUserActionFinished" [], .userIntent "hi", .botIntent "b"] := by decide
 
 end NemoVerif.C14
